@@ -43,10 +43,33 @@ def concrete(sym, pos):
     if kind == "badform":
         return b"$GPGGA,%d,garbage" % pos, b""
     pay = bytes([nmea.ARMOR[10 + pos], nmea.ARMOR[(k * 7 + (sid + 1) * 3) % 64]])
-    kw = dict(n=n, k=k, sid=None if sid < 0 else sid, payload=pay, fill=0)
+    kw = dict(n=n, k=k, sid=None if sid < 0 else sid, payload=pay, fill=(pos * 2 + k) % 6)
     if kind == "badck":
         return nmea.line(ck=nmea.xor(nmea.body(**kw)) ^ 0x21, **kw), pay
     return nmea.line(**kw), pay
+
+
+FRESH = json.dumps({"id": -1, "data": [], "no": 0}, sort_keys=True)
+
+
+def expected_step(table, st, buf, sym, pos):
+    """one table step: returns (class, r, data, unspec, line, st', buf')"""
+    kind, n, k, sid = sym
+    e = table[(st, kind, n, k, sid, 0 if kind == "badform" else 1)]
+    cls = e["class"]
+    line, pay = concrete(sym, pos)
+    unspec = kind == "good" and not (1 <= k <= n)
+    data = None
+    nbuf = buf
+    if cls == "open":
+        nbuf, data = pay, pay
+    elif cls == "continue":
+        nbuf, data = buf + pay, pay
+    elif cls == "deliver":
+        data, nbuf = buf + pay, b""
+    elif cls == "single":
+        data = pay
+    return cls, RESULT.get(cls, "err_nmea"), data, unspec, line, json.dumps(e["to"], sort_keys=True), nbuf
 
 
 def expected_path(table, path):
@@ -114,7 +137,8 @@ def _walk(prop, tier, build, depth, stride, dec):
     with open(trace, "rb") as f:
         for pi, p in enumerate(paths):
             f.readline()                      # the `new` event
-            exp = expected_path(table, p)
+            exp = []
+            st, buf = FRESH, b""
             dead = False
             for pos in range(D):
                 raw = f.readline()
@@ -122,7 +146,8 @@ def _walk(prop, tier, build, depth, stride, dec):
                     continue
                 nlines += 1
                 e = json.loads(raw)
-                cls, r, data, unspec, line = exp[pos]
+                cls, r, data, unspec, line, st2, buf2 = expected_step(table, st, buf, p[pos], pos)
+                exp.append((cls, r, data, unspec, line))
                 if dec and r == "complete":
                     r, data = "err_nmea", None       # the payload cannot decode: a payload-level error
                 classes[cls] = classes.get(cls, 0) + 1
@@ -133,6 +158,7 @@ def _walk(prop, tier, build, depth, stride, dec):
                 elif unspec:
                     if e["r"] != r:
                         dead = True           # unspecified numbering: not judged, stop following this path
+                    st, buf = st2, buf2
                     continue
                 elif e["r"] != r:
                     obs_acc = e["r"] in ("complete", "incomplete")
@@ -161,7 +187,12 @@ def _walk(prop, tier, build, depth, stride, dec):
                     ops = ["N 0"] + ["L 0 %d %s" % (dec, hexs(exp[i][4])) for i in range(pos + 1)]
                     viols.append(dict(prop=tags[0], all=tags, what=why, build=build, family="tablewalk",
                                       ops=ops, event=e))
-                    dead = True
+                    if cls in ("open", "continue", "deliver") and e["r"] in ("err_nmea", "err_checksum") and not (dec and cls == "deliver"):
+                        pass                  # wrongly rejected: by C17 no trace; keep walking from the unchanged state
+                    else:
+                        dead = True
+                else:
+                    st, buf = st2, buf2
             if pi % stride == 0:
                 sample_units.append(p)
     # a stride sample of the same paths goes through the trace specification as well
